@@ -551,7 +551,14 @@ func (x *Exec) evalIndex(s *State, n *ast.IndexExpr) *Term {
 		x.oblige(s, "index", inb, n.Pos(), exprString(n))
 		s.assume(inb) // execution continues only if in bounds
 		es := x.eng.tm.sortOf(u.Elem())
-		return Select(Select(x.memGet(s, es), Field(sv, 0)), Arith("+", Field(sv, 1), idx))
+		ev := Select(Select(x.memGet(s, es), Field(sv, 0)), Arith("+", Field(sv, 1), idx))
+		switch u.Elem().Underlying().(type) {
+		case *types.Pointer, *types.Slice, *types.Map:
+			if !idx.hasBound {
+				s.assume(x.typeInv(s, ev, u.Elem(), 0))
+			}
+		}
+		return ev
 	case *types.Array:
 		arr := x.eval(s, n.X)
 		idx := x.eval(s, n.Index)
@@ -778,6 +785,9 @@ func (x *Exec) convertTo(s *State, v *Term, from, to types.Type) *Term {
 		}
 		if want == IfaceSort && v.S == SInt {
 			return Mk(IfaceSort, IntLit(0), IntLit(0))
+		}
+		if v.S == SInt && v.rat != nil && v.rat.Sign() == 0 {
+			return x.zero(to) // untyped nil
 		}
 	}
 	return v
